@@ -1616,6 +1616,8 @@ def check_case(ctx, case, r, fam_store):
         if (nm in ('H_segment', 'H_segment_enlarge', 'H_ed_from_infinite', 'H_ed_from_infinite_enlarge') and 'incompatible LegCharge' in e
                 and not r.get('trivial_shift', True) and not finite and (seg_ is None or nm.endswith('enlarge') or seg_[1] >= r['L'])):
             key = 'C10:MPO.extract_segment:charge-shift-beyond-first-unit-cell'
+        if nm == 'H_group_then_ed' and finite and r['L'] <= 2 and ('AssertionError' in e or "Label not found: 'wR'" in e):
+            key = 'C10:ExactDiag.build_full_H_from_mpo:single-site'       # (two sites grouped into one)
         if broken_by_sort and 'incompatible LegCharge' in e:
             key = 'C10:MPO.sort_legcharges:infinite-nontrivial-charge-shift'
         problems.append((key, 'representation %s raised %s' % (nm, e)))
